@@ -18,6 +18,9 @@ import tempfile
 from .core import zl, cz, cbool, copt, clist
 
 
+PROGRESS = {}          # the input in flight (named in the report when the watchdog fires)
+
+
 def u32(n):
     return struct.pack('>I', n & 0xffffffff)
 
@@ -612,7 +615,7 @@ async def copy_observe(root, same, sz, roff, length, woff, cap):
     return Counting.reads, Counting.written, Counting.capped, replied, esc
 
 
-async def copy_run(rng, tier, root):
+async def copy_run(rng, tier, root, only=None):
     cases, bad, stats = [], [], {'done': 0, 'capped': 0}
     sizes = [0, 1, BLOCK - 1, BLOCK, BLOCK + 1, 2 * BLOCK + 5]
     params = []
@@ -626,7 +629,10 @@ async def copy_run(rng, tier, root):
     for sz, woff, length in ((BLOCK, BLOCK, 0), (BLOCK + 9, 2 * BLOCK, 0), (BLOCK, BLOCK - 1, 0), (3 * BLOCK, 5, 0),
                              (BLOCK, BLOCK, 2 ** 64 - 1), (10, 20, 0), (BLOCK, 0, 0)):
         params.append((True, sz, 0, length, woff, 6))
+    if only is not None:
+        params = [tuple(only)]
     for same, sz, roff, length, woff, cap in params:
+        PROGRESS['item'] = ['copy-data', same, sz, roff, length, woff, cap]
         reads, written, capped, replied, esc = await copy_observe(root, same, sz, roff, length, woff, cap)
         if esc:
             bad.append(('copy-data', repr((same, sz, roff, length, woff)).encode(), esc))
@@ -749,9 +755,19 @@ def import_targets():
     }
 
 
-def fuzz_imports(rng, n):
+def fuzz_imports(rng, n, only=None):
     """-> findings [(func, input bytes, exception class name)], stats"""
     targets = import_targets()
+    if only is not None:
+        fn, doc = targets[only[0]]
+        d = bytes.fromhex(only[1])
+        try:
+            fn(d)
+        except doc:
+            pass
+        except Exception as e:                          # noqa
+            return [(only[0], d, type(e).__module__.split('.')[-1] + '.' + type(e).__name__)], {}
+        return [], {}
     corpus = key_corpus()
     inputs = []
     for hx in DER_SEEDS:
@@ -782,14 +798,12 @@ def fuzz_imports(rng, n):
     for d in inputs:
         for name, (fn, doc) in targets.items():
             stats['calls'] += 1
+            PROGRESS['item'] = [name, d.hex()]
             try:
                 fn(d)
                 stats['ok'] += 1
             except doc:
                 stats['documented'] += 1
-            except RecursionError:
-                stats['undocumented'] += 1
-                findings.append((name, d, 'RecursionError'))
             except Exception as e:                      # noqa
                 stats['undocumented'] += 1
                 findings.append((name, d, type(e).__module__.split('.')[-1] + '.' + type(e).__name__))
